@@ -119,12 +119,40 @@ Theorem C04_loglik_grad_se_log_domain (al : R) :
                      (mxv (invmx (GPNoise.kernel_matrix (Kse theta) noise))) s (fun _ => exp al) h).
 Proof. move=> H. exact: (loglik_grad_kernel_log_domain SE_entries_ok _ _ _ H). Qed.
 
+
+(* the same about the TRANSLATED loops of compute_grad_log_likelihood (Gen.GenAcq.LogLikGrad.grad_linear / grad_logdom; Props/C04_handir.v:
+   they equal the hand-written form); hyp = the hyperparameter vector the loop takes its log_scaling from (theta h = exp (hyp h)) *)
+Theorem C04_loglik_grad_se_translated_loop (hyp : nat -> R) :
+  hparam_guard dim lcu theta h ->
+  locally (theta h) (fun t => let K := GPNoise.kernel_matrix (Kse (LogLikFull.upd theta h t)) noise in
+                              chol K *m (chol K)^T = K /\ is_trig_mx (chol K) /\ forall i, Rlt 0 (chol K i i)) ->
+  GPNoise.PT_K_inv_P (Kse theta) noise Pmx \in unitmx ->
+  is_derive (fun t => let Kk := Kse (LogLikFull.upd theta h t) in
+               LogLik.log_likelihood_value chol (fun L : 'M[R]_n => \sum_i ln (L i i)) (GPNoise.kernel_matrix Kk noise)
+                 (GPNoise.demeaned_y Kk noise y Pmx) (GPNoise.K_inv_demeaned_y Kk noise y Pmx) s) (theta h)
+    (LogLikGrad.grad_linear n nh (cvv (GPNoise.K_inv_demeaned_y (Kse theta) noise y Pmx)) Tse s hyp
+                            (mxv (invmx (GPNoise.kernel_matrix (Kse theta) noise))) h).
+Proof. move=> H. exact: (loglik_grad_kernel_linear_loop SE_entries_ok _ _ _ H). Qed.
+
+Theorem C04_loglik_grad_se_log_domain_translated_loop (hyp : nat -> R) :
+  hparam_guard dim lcu theta h -> theta h = exp (hyp h) ->
+  locally (exp (hyp h)) (fun t => let K := GPNoise.kernel_matrix (Kse (LogLikFull.upd theta h t)) noise in
+                                  chol K *m (chol K)^T = K /\ is_trig_mx (chol K) /\ forall i, Rlt 0 (chol K i i)) ->
+  GPNoise.PT_K_inv_P (Kse theta) noise Pmx \in unitmx ->
+  is_derive (fun u => let Kk := Kse (LogLikFull.upd theta h (exp u)) in
+               LogLik.log_likelihood_value chol (fun L : 'M[R]_n => \sum_i ln (L i i)) (GPNoise.kernel_matrix Kk noise)
+                 (GPNoise.demeaned_y Kk noise y Pmx) (GPNoise.K_inv_demeaned_y Kk noise y Pmx) s) (hyp h)
+    (LogLikGrad.grad_logdom n nh (cvv (GPNoise.K_inv_demeaned_y (Kse theta) noise y Pmx)) Tse s hyp
+                            (mxv (invmx (GPNoise.kernel_matrix (Kse theta) noise))) h).
+Proof. move=> H. exact: (loglik_grad_kernel_logdom_loop SE_entries_ok _ _ _ H). Qed.
 End C04_loglik_kernels.
 Print Assumptions C04_se_kernel_matrix_derivative.
 Print Assumptions C04_loglik_grad_se.
 Print Assumptions C04_loglik_grad_se_zero_mean.
 Print Assumptions C04_loglik_grad_se_nugget.
 Print Assumptions C04_loglik_grad_se_log_domain.
+Print Assumptions C04_loglik_grad_se_translated_loop.
+Print Assumptions C04_loglik_grad_se_log_domain_translated_loop.
 
 (* non-vacuity (SquareExponential, differentiation in the LENGTH SCALE, h = 1): one observation at x = 7 in dimension 1, constant mean,
    alpha = 3, length scale 1/2 (so lcu 0 = 1/8), noise 1/10; the Cholesky factor of the 1 x 1 kernel matrix is its square root *)
